@@ -6,13 +6,24 @@
                  only ever name VG_HDR.field (DFCC pointer-equality trap, engine/README.md).
                  Default: the static object vg_hdr below.
    VG_DATA_MAX   constant cap on data_len of the variable-length (string) decoders and of the dispatcher
-                 (keeps malloc(data_len + 2) from wrapping).  Default 0x100000 = LEVEL_3_MAX_HEADER_LEN, the
-                 largest header the parser allocates; every extended header lies inside one header.
+                 (keeps malloc(data_len + 2) from wrapping).  Default 0x100000 = LEVEL_3_MAX_HEADER_LEN: level-3
+                 headers are capped at it and below level 3 every extended header has a 16-bit length.
    The extended-header bytes are NOT pinned to an arena: `data` is described by
    __CPROVER_is_fresh(data, n) - in an enforced group that is a fresh object of exactly n bytes (so a read
    or write outside data[0..n) is a pointer-check failure: the bounds are tight on both sides), at a
    replaced call site it is the obligation "data[0..n) is readable/writable" (the real pointer into
-   raw_data satisfies it; nothing else is required of the caller's arena). */
+   raw_data satisfies it; nothing else is required of the caller's arena).
+
+   Recipe for a unit that REPLACES lha_ext_header_decode / lha_decode_uint16.. by these contracts:
+     #define VG_HDR <your pinned header lvalue>     (may be a member of a bigger arena object)
+     #define VG_NO_WAS_FREED                         (CBMC 6.11 cannot assume was_freed, see ext_header.c.spec)
+     #include "vg_exthdr.h"                          (brings the prophecy malloc stub and vg_malloc_ok)
+     #include "lib/lha_endian.c" / "lib/ext_header.c" (woven)
+   and in your contracts: establish VG_STR_IN() of the four string fields before the call, put vg_malloc_ok,
+   vg_name_len and the header fields into assigns, the four strings into frees.  A scratch client with header and
+   raw bytes in ONE object (struct { LHAFileHeader h; uint8_t raw[600]; }) was checked against this recipe: the
+   preconditions are provable for a pointer into raw[], and after a failed/skipped decode the unchanged string
+   can still be read and freed. */
 #ifndef VG_EXTHDR_H
 #define VG_EXTHDR_H
 #include "vg_common.h"
